@@ -80,9 +80,10 @@ def domain(sn, rnd, n, full=False):
         vals = [0, 1, -1, -2 ** 31, 2 ** 31 - 1] + [rnd.randrange(-2 ** 31, 2 ** 31) for _ in range(n)]
         return [(v, "neg" if v < 0 else "val") for v in vals]
     if t == "Timestamp":
-        vals = [datetime(2000, 1, 1, 0, 0, 0), datetime(2099, 12, 31, 23, 59, 59), datetime(2024, 2, 29, 12, 30, 15)]
+        vals = [datetime(2000, 1, 1, 0, 0, 0), datetime(2099, 12, 31, 23, 59, 59), datetime(2024, 2, 29, 12, 30, 15),
+                datetime(2100, 1, 1, 0, 0, 0), datetime(2127, 6, 15, 1, 2, 3), datetime(2128, 6, 15, 1, 2, 3), datetime(2255, 12, 31, 23, 59, 59)]
         for _ in range(n):
-            vals.append(datetime(2000 + rnd.randrange(100), rnd.randrange(1, 13), rnd.randrange(1, 29), rnd.randrange(24), rnd.randrange(60), rnd.randrange(60)))
+            vals.append(datetime(2000 + rnd.randrange(256), rnd.randrange(1, 13), rnd.randrange(1, 29), rnd.randrange(24), rnd.randrange(60), rnd.randrange(60)))
         return [(v, "val") for v in vals]
     if t == "EcoModeV1":
         out = []
@@ -206,7 +207,7 @@ def e2e_part(spec, part):
             for v, cls in dom[:spec["per_setting"]]:
                 # arbitrary prior contents around and inside the setting's registers
                 for a in range(sn.offset - 2, sn.offset + nregs + 2):
-                    sim.regs[a] = rnd.randrange(65536)
+                    sim.regs[a] = rnd.choice((rnd.randrange(65536), rnd.randrange(65536), 0xFFFF, 0x0000, 0xFF00, 0x00FF, 0x7FFF, 0x8000))
                 prior = sim.get_bytes(sn.offset, nregs)
                 before = sim.snapshot()
                 w0 = len(sim.writes)
